@@ -10,7 +10,8 @@ import docs
 from docs import Doc, flatten, parse_flat, replace_subtree
 
 LEAN_MODULES = ['GoSnaps.Props.C15', 'GoSnaps.Props.Tie.Flows', 'GoSnaps.Props.Tie.Matchers',
-                'GoSnaps.DriverX', 'GoSnaps.Lemmas.JsonPath', 'GoSnaps.Props.C16Json']
+                'GoSnaps.DriverX', 'GoSnaps.Lemmas.JsonPath', 'GoSnaps.Props.C16Json',
+                'GoSnaps.Lemmas.JsonEndToEnd', 'GoSnaps.Props.Tie.JsonEndToEnd']
 
 
 def set_path(v, fp, newv):
